@@ -4,12 +4,14 @@ import Clover.Proofs.SetAllOrder
 /-! # The repaired key renaming of `Document.Unmarshal` (defect F40)
 
 1. on the old fragment of types (no embedded fields, no containers) the new `renameMapKeys` is the
-   old one (`renameMapKeys_embedOld`);
-2. structs held in slices / arrays (`renameValue_list`) and in maps (`renameValue_map`) are renamed by
-   the element type;
-3. the promoted fields of an embedded struct are renamed exactly like direct ones
-   (`renameMapKeys_embedded`);
-4. the reproducer of F40. -/
+   old one, on every document (`renameMapKeys_embedOld`);
+2. a struct without embedded fields: every field is found under its read name, its value renamed by
+   its type (`lookupKey_renameMapKeys_field`); in particular structs held in slices / arrays
+   (`renameValue_list`) and in maps (`renameValue_map`) are renamed by the element type;
+4. the promoted fields of an embedded struct are renamed exactly like direct ones
+   (`renameMapKeys_embedded`, `renameMapKeys_embedded_direct`) - under the hypothesis `cross`, which is
+   needed (last example of the file): the promoted fields are renamed in a second pass;
+5. the reproducer of F40. -/
 namespace CV.U2
 open OC
 
@@ -127,6 +129,538 @@ theorem renameFields_embedOld : (fs : List CV.RField) → (d : Doc) → KeysInc 
     exact renameFields_embedOld rest _ (keysInc_nestStep g j t d hd)
 end
 
+/-! ## 2. Structs without embedded fields: every field goes through `renameValue` -/
+
+/-- the key the field is stored under in the document -/
+def RField.stored (f : RField) : Bytes := fromName f.1 f.2.1
+/-- the key `encoding/json` reads the field from -/
+def RField.read (f : RField) : Bytes := toName f.1 f.2.2.1
+/-- the field as a field of the old model (names only) -/
+def forget (f : RField) : CV.RField := (f.1, f.2.1, f.2.2.1, RType.leaf)
+
+/-- no field is embedded -/
+def Plain (fs : List RField) : Prop := ∀ f ∈ fs, f.2.2.2.1 = false
+
+/-- the stored names are pairwise distinct and the read names are pairwise distinct -/
+def FieldsOK (fs : List RField) : Prop :=
+  (fs.map RField.stored).Nodup ∧ (fs.map RField.read).Nodup
+
+/-- the keys of `d` are distinct, and each is the stored name of a field or (a stray key) no field's
+    read name -/
+def DocFits (fs : List RField) (d : Doc) : Prop :=
+  (d.map (·.1)).Nodup ∧
+  ∀ kv ∈ d, (∃ f ∈ fs, kv.1 = RField.stored f) ∨ (∀ f ∈ fs, kv.1 ≠ RField.read f)
+
+theorem plain_cons {g c j : Bytes} {e : Bool} {t : RT} {rest : List RField}
+    (h : Plain ((g, c, j, e, t) :: rest)) : e = false ∧ Plain rest :=
+  ⟨h _ List.mem_cons_self, fun f hf => h f (List.mem_cons_of_mem _ hf)⟩
+
+theorem renameMap_forget : (fs : List RField) → renameMap fs = CV.renameMap (fs.map forget)
+  | [] => rfl
+  | (g, c, j, e, t) :: rest => by
+    simp only [renameMap, List.map_cons, forget, CV.renameMap, renameMap_forget rest]
+
+theorem map_stored_forget (fs : List RField) :
+    (fs.map forget).map CV.RField.stored = fs.map RField.stored := by
+  rw [List.map_map]; rfl
+
+theorem map_read_forget (fs : List RField) :
+    (fs.map forget).map CV.RField.read = fs.map RField.read := by
+  rw [List.map_map]; rfl
+
+/-- every field's stored name is sent to its read name -/
+theorem target_renameMap (fs : List RField) (hn : (fs.map RField.stored).Nodup) (f : RField)
+    (hf : f ∈ fs) : target (renameMap fs) (RField.stored f) = RField.read f := by
+  rw [renameMap_forget]
+  exact CV.target_renameMap (fs.map forget) (by rw [map_stored_forget]; exact hn) (forget f)
+    (List.mem_map_of_mem hf)
+
+/-- a key that is no field's stored name is not renamed -/
+theorem target_renameMap_stray (k : Bytes) (fs : List RField)
+    (h : ∀ f ∈ fs, k ≠ RField.stored f) : target (renameMap fs) k = k := by
+  rw [renameMap_forget]
+  refine CV.target_renameMap_stray k (fs.map forget) ?_
+  intro f' hf'
+  obtain ⟨f, hf, rfl⟩ := List.mem_map.1 hf'
+  exact h f hf
+
+/-- `rename`: the name `t` receives the value of the key `k` when `k` is the only key sent to `t` -/
+theorem lookupKey_renameTop_of_iff (rm : List (Bytes × Bytes)) (d : Doc) (hn : (d.map (·.1)).Nodup)
+    (t k : Bytes) (h : ∀ kv ∈ d, target rm kv.1 = t ↔ kv.1 = k) :
+    lookupKey t (renameTop rm d) = lookupKey k d := by
+  show lookupKey t (renameInto rm [] d) = _
+  by_cases hk : k ∈ d.map (·.1)
+  · obtain ⟨kv, hkv, rfl⟩ := List.mem_map.1 hk
+    have ht : target rm kv.1 = t := (h kv hkv).2 rfl
+    have := lookupKey_renameInto_key rm kv.1 d [] hn (fun kv' hkv' e => (h kv' hkv').1 (e.trans ht))
+    rw [ht] at this
+    rw [this]
+    cases lookupKey kv.1 d <;> rfl
+  · rw [lookupKey_none_of_not_mem k d hk,
+      lookupKey_renameInto_other rm t d [] (fun kv hkv e => hk ((h kv hkv).1 e ▸ List.mem_map_of_mem hkv))]
+    rfl
+
+/-- the keys after `rename` are the targets of the keys before -/
+theorem mem_keys_renameInto (rm : List (Bytes × Bytes)) (p : Bytes × Value) : (d : Doc) → (acc : Doc) →
+    p ∈ renameInto rm acc d → p ∈ acc ∨ ∃ kv ∈ d, p.1 = target rm kv.1
+  | [], _, h => Or.inl h
+  | kv :: rest, acc, h => by
+    rw [renameInto_cons] at h
+    rcases mem_keys_renameInto rm p rest _ h with h1 | ⟨kv', hkv', e⟩
+    · rcases mem_insertKey _ _ p acc h1 with e | h2
+      · exact Or.inr ⟨kv, List.mem_cons_self, by rw [e]⟩
+      · exact Or.inl h2
+    · exact Or.inr ⟨kv', List.mem_cons_of_mem _ hkv', e⟩
+
+theorem mem_keys_renameTop (rm : List (Bytes × Bytes)) (p : Bytes × Value) (d : Doc)
+    (h : p ∈ renameTop rm d) : ∃ kv ∈ d, p.1 = target rm kv.1 := by
+  rcases mem_keys_renameInto rm p d [] h with h1 | h2
+  · cases h1
+  · exact h2
+
+theorem lookupKey_directStep (g j : Bytes) (t : RT) (d : Doc) (k : Bytes) :
+    lookupKey k (directStep g j t d) =
+      if k = toName g j then (lookupKey k d).map (renameValue t) else lookupKey k d := by
+  unfold directStep
+  by_cases hk : k = toName g j
+  · subst hk
+    rw [if_pos rfl]
+    cases h : lookupKey (toName g j) d with
+    | none => simp only [h]; rfl
+    | some v => simp only [lookupKey_insertKey, if_true, Option.map_some]
+  · rw [if_neg hk]
+    split
+    · rw [lookupKey_insertKey, if_neg hk]
+    · rfl
+
+theorem keysInc_directStep (g j : Bytes) (t : RT) (d : Doc) (h : KeysInc d) :
+    KeysInc (directStep g j t d) := by
+  unfold directStep
+  split
+  · exact insertKey_sorted _ _ _ h
+  · exact h
+
+theorem mem_keys_directStep (g j : Bytes) (t : RT) (d : Doc) (p : Bytes × Value)
+    (h : p ∈ directStep g j t d) : p.1 ∈ d.map (·.1) := by
+  unfold directStep at h
+  split at h
+  · rename_i v hl
+    rcases mem_insertKey _ _ p d h with e | h2
+    · rw [e]; exact List.mem_map_of_mem (f := (·.1)) (mem_of_lookupKey d hl)
+    · exact List.mem_map_of_mem h2
+  · exact List.mem_map_of_mem h
+
+theorem renameFields_append : (a b : List RField) → (d : Doc) →
+    renameFields (a ++ b) d = renameFields b (renameFields a d)
+  | [], _, _ => rfl
+  | (g, c, j, e, t) :: rest, b, d => by
+    rw [List.cons_append, renameFields_cons, renameFields_cons, renameFields_append rest b]
+
+/-- a key that is no field's read name is not touched by the loop -/
+theorem lookupKey_renameFields_other (k : Bytes) : (fs : List RField) → (d : Doc) → Plain fs →
+    (∀ f ∈ fs, k ≠ RField.read f) → lookupKey k (renameFields fs d) = lookupKey k d
+  | [], _, _, _ => rfl
+  | (g, c, j, e, t) :: rest, d, hp, h => by
+    have hk : k ≠ toName g j := h (g, c, j, e, t) List.mem_cons_self
+    obtain ⟨rfl, hp'⟩ := plain_cons hp
+    rw [renameFields_cons, fieldStep_direct,
+      lookupKey_renameFields_other k rest _ hp' (fun f hf => h f (List.mem_cons_of_mem _ hf)),
+      lookupKey_directStep, if_neg hk]
+
+/-- the loop rewrites the value under the read name of each field according to its type -/
+theorem lookupKey_renameFields_field : (fs : List RField) → (d : Doc) → Plain fs →
+    (fs.map RField.read).Nodup →
+    ∀ f ∈ fs, lookupKey (RField.read f) (renameFields fs d) =
+      (lookupKey (RField.read f) d).map (renameValue f.2.2.2.2)
+  | [], _, _, _, f, hf => by cases hf
+  | (g, c, j, e, t) :: rest, d, hp, hn, f, hf => by
+    simp only [List.map_cons, List.nodup_cons] at hn
+    have hn1 : toName g j ∉ rest.map RField.read := hn.1
+    obtain ⟨rfl, hp'⟩ := plain_cons hp
+    rw [renameFields_cons, fieldStep_direct]
+    rcases List.mem_cons.1 hf with rfl | hf'
+    · rw [lookupKey_renameFields_other _ rest _ hp'
+        (fun f' hf' e => hn1 (by rw [show toName g j = RField.read f' from e]; exact List.mem_map_of_mem hf')),
+        lookupKey_directStep]
+      exact if_pos rfl
+    · have hne : RField.read f ≠ toName g j := fun e => hn1 (e ▸ List.mem_map_of_mem hf')
+      rw [lookupKey_renameFields_field rest _ hp' hn.2 f hf', lookupKey_directStep, if_neg hne]
+
+theorem keysInc_renameFields : (fs : List RField) → (d : Doc) → Plain fs → KeysInc d →
+    KeysInc (renameFields fs d)
+  | [], _, _, h => h
+  | (g, c, j, e, t) :: rest, d, hp, h => by
+    obtain ⟨rfl, hp'⟩ := plain_cons hp
+    rw [renameFields_cons, fieldStep_direct]
+    exact keysInc_renameFields rest _ hp' (keysInc_directStep g j t d h)
+
+theorem mem_keys_renameFields (p : Bytes × Value) : (fs : List RField) → (d : Doc) → Plain fs →
+    p ∈ renameFields fs d → p.1 ∈ d.map (·.1)
+  | [], _, _, h => List.mem_map_of_mem h
+  | (g, c, j, e, t) :: rest, d, hp, h => by
+    obtain ⟨rfl, hp'⟩ := plain_cons hp
+    rw [renameFields_cons, fieldStep_direct] at h
+    obtain ⟨p', hp'', e⟩ := List.mem_map.1 (mem_keys_renameFields p rest _ hp' h)
+    rw [← e]
+    exact mem_keys_directStep g j t d p' hp''
+
+theorem nodup_keys_of_keysInc (d : Doc) (h : KeysInc d) : (d.map (·.1)).Nodup := by
+  unfold List.Nodup
+  rw [List.pairwise_map]
+  exact List.Pairwise.imp (fun {a b} hab => lexLt_ne a.1 b.1 hab) h
+
+theorem lookupKey_renameTop_field (fs : List RField) (hok : FieldsOK fs) (d : Doc) (hd : DocFits fs d)
+    (f : RField) (hf : f ∈ fs) :
+    lookupKey (RField.read f) (renameTop (renameMap fs) d) = lookupKey (RField.stored f) d := by
+  have ht := target_renameMap fs hok.1
+  refine lookupKey_renameTop_of_iff _ d hd.1 _ _ ?_
+  intro kv hkv
+  constructor
+  · intro e
+    by_cases hs : ∃ f' ∈ fs, kv.1 = RField.stored f'
+    · obtain ⟨f', hf', e'⟩ := hs
+      rw [e', ht f' hf'] at e
+      rw [e', inj_of_nodup_map RField.read fs hok.2 f' hf' f hf e]
+    · rw [target_renameMap_stray kv.1 fs (fun f' hf' e' => hs ⟨f', hf', e'⟩)] at e
+      rcases hd.2 kv hkv with h1 | h2
+      · exact absurd h1 hs
+      · exact absurd e (h2 f hf)
+  · intro e
+    rw [e, ht f hf]
+
+/-- one level: after `renameMapKeys` the value of every field is found under its read name, renamed
+    by the type of the field -/
+theorem lookupKey_renameMapKeys_field (fs : List RField) (hp : Plain fs) (hok : FieldsOK fs) (d : Doc)
+    (hd : DocFits fs d) (f : RField) (hf : f ∈ fs) :
+    lookupKey (RField.read f) (renameMapKeys (.struct fs) d) =
+      (lookupKey (RField.stored f) d).map (renameValue f.2.2.2.2) := by
+  rw [renameMapKeys_struct, lookupKey_renameFields_field fs _ hp hok.2 f hf,
+    lookupKey_renameTop_field fs hok d hd f hf]
+
+/-- a key that is neither the stored name nor the read name of a field is kept with its value -/
+theorem lookupKey_renameMapKeys_stray (fs : List RField) (hp : Plain fs)
+    (hst : (fs.map RField.stored).Nodup) (d : Doc) (hn : (d.map (·.1)).Nodup) (k : Bytes)
+    (hk : ∀ f ∈ fs, k ≠ RField.stored f ∧ k ≠ RField.read f) :
+    lookupKey k (renameMapKeys (.struct fs) d) = lookupKey k d := by
+  rw [renameMapKeys_struct, lookupKey_renameFields_other k fs _ hp (fun f hf => (hk f hf).2)]
+  refine lookupKey_renameTop_of_iff _ d hn _ _ ?_
+  intro kv hkv
+  constructor
+  · intro e
+    by_cases hs : ∃ f' ∈ fs, kv.1 = RField.stored f'
+    · obtain ⟨f', hf', e'⟩ := hs
+      rw [e', target_renameMap fs hst f' hf'] at e
+      exact absurd e.symm (hk f' hf').2
+    · rw [target_renameMap_stray kv.1 fs (fun f' hf' e' => hs ⟨f', hf', e'⟩)] at e
+      exact e
+  · intro e
+    rw [e]
+    exact target_renameMap_stray k fs (fun f hf => (hk f hf).1)
+
+/-- item 2: a field of type slice / array of structs: every element is renamed by the struct type -/
+theorem renameValue_list (fs : List RField) (hp : Plain fs) (hok : FieldsOK fs) (d : Doc)
+    (hd : DocFits fs d) (g c j : Bytes) (e : Bool) (sub : List RField)
+    (hf : (g, c, j, e, RT.list (.struct sub)) ∈ fs) (xs : List Value)
+    (hx : lookupKey (fromName g c) d = some (.arr xs)) :
+    lookupKey (toName g j) (renameMapKeys (.struct fs) d) =
+      some (.arr (xs.map (renameValue (.struct sub)))) := by
+  have := lookupKey_renameMapKeys_field fs hp hok d hd _ hf
+  simp only [RField.read, RField.stored, hx, Option.map_some, renameValue_list_arr] at this
+  exact this
+
+/-- … whose elements that are documents are renamed by `renameMapKeys` of the struct type -/
+theorem renameValue_list_objs (sub : List RField) (ms : List Doc) :
+    (ms.map Value.obj).map (renameValue (.struct sub)) =
+      (ms.map (renameMapKeys (.struct sub))).map Value.obj := by
+  rw [List.map_map, List.map_map]; rfl
+
+/-- item 3: a field of type map of structs: every value is renamed by the struct type, the keys of
+    the map are kept -/
+theorem renameValue_map (fs : List RField) (hp : Plain fs) (hok : FieldsOK fs) (d : Doc)
+    (hd : DocFits fs d) (g c j : Bytes) (e : Bool) (sub : List RField)
+    (hf : (g, c, j, e, RT.map (.struct sub)) ∈ fs) (m : Doc)
+    (hm : lookupKey (fromName g c) d = some (.obj m)) :
+    lookupKey (toName g j) (renameMapKeys (.struct fs) d) =
+      some (.obj (m.map (fun kv => (kv.1, renameValue (.struct sub) kv.2)))) := by
+  have := lookupKey_renameMapKeys_field fs hp hok d hd _ hf
+  simp only [RField.read, RField.stored, hm, Option.map_some, renameValue_map_obj] at this
+  exact this
+
+/-- reading the renamed map of item 3 -/
+theorem lookupKey_map_renameValue (t : RT) (k : Bytes) : (m : Doc) →
+    lookupKey k (m.map (fun kv => (kv.1, renameValue t kv.2))) = (lookupKey k m).map (renameValue t)
+  | [] => rfl
+  | (a, x) :: rest => by
+    simp only [List.map_cons, lookupKey]
+    split
+    · rfl
+    · exact lookupKey_map_renameValue t k rest
+
+/-- a field of struct type holding a document (as in the old model) -/
+theorem renameMapKeys_nested (fs : List RField) (hp : Plain fs) (hok : FieldsOK fs) (d : Doc)
+    (hd : DocFits fs d) (g c j : Bytes) (e : Bool) (sub : List RField)
+    (hf : (g, c, j, e, RT.struct sub) ∈ fs) (m : Doc)
+    (hm : lookupKey (fromName g c) d = some (.obj m)) :
+    lookupKey (toName g j) (renameMapKeys (.struct fs) d) =
+      some (.obj (renameMapKeys (.struct sub) m)) := by
+  have := lookupKey_renameMapKeys_field fs hp hok d hd _ hf
+  simp only [RField.read, RField.stored, hm, Option.map_some, renameValue_struct] at this
+  exact this
+
+/-! ## 4. An embedded struct: promoted fields are renamed exactly like direct ones -/
+
+/-- the hypotheses of item 4: a struct with ordinary fields `pre`, then ONE embedded struct field `E`
+    (Go name `gE`, tags `cE`, `jE`, fields `es`), then ordinary fields `post`; the document `d` holds
+    the fields of `E` flattened among the direct ones -/
+structure EmbeddedOK (pre post es : List RField) (gE cE : Bytes) (d : Doc) : Prop where
+  /-- no further embedded field -/
+  plain_pre : Plain pre
+  plain_post : Plain post
+  plain_es : Plain es
+  /-- the stored names of the direct and of the promoted fields are pairwise distinct -/
+  stored : (((pre ++ post) ++ es).map RField.stored).Nodup
+  /-- the read names of the direct and of the promoted fields are pairwise distinct -/
+  read : (((pre ++ post) ++ es).map RField.read).Nodup
+  /-- no promoted field is stored under the read name of a direct field (the promoted fields are
+      renamed in a second pass over the same map) -/
+  cross : ∀ f ∈ es, ∀ f' ∈ pre ++ post, RField.stored f ≠ RField.read f'
+  /-- the keys of the document: distinct; stored names of direct or promoted fields, or stray keys
+      that are no field's read name -/
+  fits : DocFits ((pre ++ post) ++ es) d
+  /-- the Go name of `E` is not a key of the document (its fields were flattened) … -/
+  goName_not_key : gE ∉ d.map (·.1)
+  /-- … nor is the `clover` name of `E` (the same thing when `E` has no `clover` tag) -/
+  stored_not_key : fromName gE cE ∉ d.map (·.1)
+  /-- no direct field is read from the Go name of `E` -/
+  goName_not_read : gE ∉ (pre ++ post).map RField.read
+  /-- no direct field is stored under the `clover` name of `E` -/
+  stored_not_stored : fromName gE cE ∉ (pre ++ post).map RField.stored
+
+section Embedded
+variable {pre post es : List RField} {gE cE : Bytes} {d : Doc}
+
+theorem fieldStep_embedded (g j : Bytes) (sub : List RField) (d : Doc) (h : hasMapUnder g d = false) :
+    fieldStep g j true (.struct sub) d = renameMapKeys (.struct sub) d := by
+  simp only [fieldStep, RT.isStruct, h, Bool.and_self, Bool.not_false, if_true]
+
+theorem hasMapUnder_of_not_key (g : Bytes) (d : Doc) (h : g ∉ d.map (·.1)) : hasMapUnder g d = false := by
+  unfold hasMapUnder
+  rw [lookupKey_none_of_not_mem g d h]
+
+theorem EmbeddedOK.storedD (h : EmbeddedOK pre post es gE cE d) : ((pre ++ post).map RField.stored).Nodup := by
+  have := h.stored; rw [List.map_append] at this; exact (List.nodup_append.1 this).1
+theorem EmbeddedOK.storedE (h : EmbeddedOK pre post es gE cE d) : (es.map RField.stored).Nodup := by
+  have := h.stored; rw [List.map_append] at this; exact (List.nodup_append.1 this).2.1
+theorem EmbeddedOK.stored_disj (h : EmbeddedOK pre post es gE cE d) :
+    ∀ f ∈ pre ++ post, ∀ f' ∈ es, RField.stored f ≠ RField.stored f' := by
+  have := h.stored; rw [List.map_append] at this
+  exact fun f hf f' hf' => (List.nodup_append.1 this).2.2 _ (List.mem_map_of_mem hf) _ (List.mem_map_of_mem hf')
+theorem EmbeddedOK.readD (h : EmbeddedOK pre post es gE cE d) : ((pre ++ post).map RField.read).Nodup := by
+  have := h.read; rw [List.map_append] at this; exact (List.nodup_append.1 this).1
+theorem EmbeddedOK.readE (h : EmbeddedOK pre post es gE cE d) : (es.map RField.read).Nodup := by
+  have := h.read; rw [List.map_append] at this; exact (List.nodup_append.1 this).2.1
+theorem EmbeddedOK.read_disj (h : EmbeddedOK pre post es gE cE d) :
+    ∀ f ∈ pre ++ post, ∀ f' ∈ es, RField.read f ≠ RField.read f' := by
+  have := h.read; rw [List.map_append] at this
+  exact fun f hf f' hf' => (List.nodup_append.1 this).2.2 _ (List.mem_map_of_mem hf) _ (List.mem_map_of_mem hf')
+theorem EmbeddedOK.read_pre_post (h : EmbeddedOK pre post es gE cE d) :
+    ∀ f ∈ pre, ∀ f' ∈ post, RField.read f ≠ RField.read f' := by
+  have := h.readD; rw [List.map_append] at this
+  exact fun f hf f' hf' => (List.nodup_append.1 this).2.2 _ (List.mem_map_of_mem hf) _ (List.mem_map_of_mem hf')
+
+/-- the top-level `rename` sends the stored name of every direct field to its read name -/
+theorem EmbeddedOK.target_direct (h : EmbeddedOK pre post es gE cE d) (jE : Bytes) (f : RField)
+    (hf : f ∈ pre ++ post) :
+    target (renameMap (pre ++ (gE, cE, jE, true, RT.struct es) :: post)) (RField.stored f) = RField.read f := by
+  refine target_renameMap _ ?_ f ?_
+  · rw [List.map_append, List.map_cons]
+    refine (List.perm_middle.nodup_iff).2 (List.nodup_cons.2 ⟨?_, ?_⟩)
+    · have := h.stored_not_stored; rw [List.map_append] at this; exact this
+    · have := h.storedD; rw [List.map_append] at this; exact this
+  · rcases List.mem_append.1 hf with h1 | h1
+    · exact List.mem_append.2 (Or.inl h1)
+    · exact List.mem_append.2 (Or.inr (List.mem_cons_of_mem _ h1))
+
+/-- … and leaves alone every key that is not the stored name of a direct field or of `E` -/
+theorem EmbeddedOK.target_other (jE : Bytes) (k : Bytes)
+    (hk : ∀ f ∈ pre ++ post, k ≠ RField.stored f) (hkE : k ≠ fromName gE cE) :
+    target (renameMap (pre ++ (gE, cE, jE, true, RT.struct es) :: post)) k = k := by
+  refine target_renameMap_stray k _ ?_
+  intro f hf
+  rcases List.mem_append.1 hf with h1 | h1
+  · exact hk f (List.mem_append.2 (Or.inl h1))
+  · rcases List.mem_cons.1 h1 with rfl | h2
+    · exact hkE
+    · exact hk f (List.mem_append.2 (Or.inr h2))
+
+/-- the three kinds of keys of the document and where the top-level `rename` sends them -/
+theorem EmbeddedOK.classify (h : EmbeddedOK pre post es gE cE d) (jE : Bytes) (kv : Bytes × Value)
+    (hkv : kv ∈ d) :
+    (∃ f ∈ pre ++ post, kv.1 = RField.stored f ∧
+      target (renameMap (pre ++ (gE, cE, jE, true, RT.struct es) :: post)) kv.1 = RField.read f) ∨
+    (∃ f ∈ es, kv.1 = RField.stored f ∧
+      target (renameMap (pre ++ (gE, cE, jE, true, RT.struct es) :: post)) kv.1 = kv.1) ∨
+    ((∀ f ∈ (pre ++ post) ++ es, kv.1 ≠ RField.stored f ∧ kv.1 ≠ RField.read f) ∧
+      target (renameMap (pre ++ (gE, cE, jE, true, RT.struct es) :: post)) kv.1 = kv.1) := by
+  have hkE : kv.1 ≠ fromName gE cE := fun e => h.stored_not_key (e ▸ List.mem_map_of_mem hkv)
+  by_cases h1 : ∃ f ∈ pre ++ post, kv.1 = RField.stored f
+  · obtain ⟨f, hf, e⟩ := h1
+    exact Or.inl ⟨f, hf, e, by rw [e]; exact h.target_direct jE f hf⟩
+  · have hid := EmbeddedOK.target_other (es := es) jE kv.1 (fun f hf e => h1 ⟨f, hf, e⟩) hkE
+    by_cases h2 : ∃ f ∈ es, kv.1 = RField.stored f
+    · obtain ⟨f, hf, e⟩ := h2
+      exact Or.inr (Or.inl ⟨f, hf, e, hid⟩)
+    · refine Or.inr (Or.inr ⟨?_, hid⟩)
+      have hns : ∀ f ∈ (pre ++ post) ++ es, kv.1 ≠ RField.stored f := by
+        intro f hf e
+        rcases List.mem_append.1 hf with h3 | h3
+        · exact h1 ⟨f, h3, e⟩
+        · exact h2 ⟨f, h3, e⟩
+      rcases h.fits.2 kv hkv with ⟨f, hf, e⟩ | h3
+      · exact absurd e (hns f hf)
+      · exact fun f hf => ⟨hns f hf, h3 f hf⟩
+
+/-- after the top-level `rename` a direct field is found under its read name -/
+theorem EmbeddedOK.top_direct (h : EmbeddedOK pre post es gE cE d) (jE : Bytes) (f : RField)
+    (hf : f ∈ pre ++ post) :
+    lookupKey (RField.read f) (renameTop (renameMap (pre ++ (gE, cE, jE, true, RT.struct es) :: post)) d) =
+      lookupKey (RField.stored f) d := by
+  refine lookupKey_renameTop_of_iff _ d h.fits.1 _ _ ?_
+  intro kv hkv
+  constructor
+  · intro e
+    rcases h.classify jE kv hkv with ⟨f', hf', e1, e2⟩ | ⟨f', hf', e1, e2⟩ | ⟨h3, e2⟩
+    · rw [e2] at e
+      rw [e1, inj_of_nodup_map RField.read _ h.readD f' hf' f hf e]
+    · rw [e2, e1] at e
+      exact absurd e (h.cross f' hf' f hf)
+    · rw [e2] at e
+      exact absurd e (h3 f (List.mem_append.2 (Or.inl hf))).2
+  · intro e
+    rw [e]; exact h.target_direct jE f hf
+
+/-- after the top-level `rename` a promoted field is still under its stored name -/
+theorem EmbeddedOK.top_promoted (h : EmbeddedOK pre post es gE cE d) (jE : Bytes) (f : RField)
+    (hf : f ∈ es) :
+    lookupKey (RField.stored f) (renameTop (renameMap (pre ++ (gE, cE, jE, true, RT.struct es) :: post)) d) =
+      lookupKey (RField.stored f) d := by
+  refine lookupKey_renameTop_of_iff _ d h.fits.1 _ _ ?_
+  intro kv hkv
+  constructor
+  · intro e
+    rcases h.classify jE kv hkv with ⟨f', hf', _, e2⟩ | ⟨f', hf', _, e2⟩ | ⟨_, e2⟩
+    · rw [e2] at e
+      exact absurd e.symm (h.cross f hf f' hf')
+    · rw [e2] at e; exact e
+    · rw [e2] at e; exact e
+  · intro e
+    rw [e]
+    refine EmbeddedOK.target_other jE _ (fun f' hf' e' => h.stored_disj f' hf' f hf e'.symm) ?_
+    intro e'
+    exact h.stored_not_key (by rw [← e', ← e]; exact List.mem_map_of_mem hkv)
+
+/-- the keys of the map when the loop reaches the embedded field -/
+theorem EmbeddedOK.keys_mid (h : EmbeddedOK pre post es gE cE d) (jE : Bytes) (p : Bytes × Value)
+    (hp : p ∈ renameFields pre (renameTop (renameMap (pre ++ (gE, cE, jE, true, RT.struct es) :: post)) d)) :
+    ∃ kv ∈ d, p.1 = target (renameMap (pre ++ (gE, cE, jE, true, RT.struct es) :: post)) kv.1 := by
+  obtain ⟨p', hp', e⟩ := List.mem_map.1 (mem_keys_renameFields p pre _ h.plain_pre hp)
+  obtain ⟨kv, hkv, e'⟩ := mem_keys_renameTop _ p' d hp'
+  exact ⟨kv, hkv, by rw [← e, e']⟩
+
+/-- … no key is the Go name of the embedded field: the branch "flattened" is taken -/
+theorem EmbeddedOK.noMap_mid (h : EmbeddedOK pre post es gE cE d) (jE : Bytes) :
+    hasMapUnder gE
+      (renameFields pre (renameTop (renameMap (pre ++ (gE, cE, jE, true, RT.struct es) :: post)) d)) = false := by
+  refine hasMapUnder_of_not_key _ _ ?_
+  intro hmem
+  obtain ⟨p, hp, e⟩ := List.mem_map.1 hmem
+  obtain ⟨kv, hkv, e'⟩ := h.keys_mid jE p hp
+  have e'' : gE = target (renameMap (pre ++ (gE, cE, jE, true, RT.struct es) :: post)) kv.1 := by
+    rw [← e', ← e]
+  rcases h.classify jE kv hkv with ⟨f', hf', _, e2⟩ | ⟨f', hf', _, e2⟩ | ⟨_, e2⟩
+  · rw [e2] at e''
+    exact h.goName_not_read (e'' ▸ List.mem_map_of_mem hf')
+  · rw [e2] at e''
+    exact h.goName_not_key (e'' ▸ List.mem_map_of_mem hkv)
+  · rw [e2] at e''
+    exact h.goName_not_key (e'' ▸ List.mem_map_of_mem hkv)
+
+/-- … and the map fits the embedded type -/
+theorem EmbeddedOK.fits_mid (h : EmbeddedOK pre post es gE cE d) (jE : Bytes) :
+    DocFits es
+      (renameFields pre (renameTop (renameMap (pre ++ (gE, cE, jE, true, RT.struct es) :: post)) d)) := by
+  refine ⟨nodup_keys_of_keysInc _ (keysInc_renameFields pre _ h.plain_pre (keysInc_renameTop _ _)), ?_⟩
+  intro p hp
+  obtain ⟨kv, hkv, e'⟩ := h.keys_mid jE p hp
+  rcases h.classify jE kv hkv with ⟨f', hf', _, e2⟩ | ⟨f', hf', e1, e2⟩ | ⟨h3, e2⟩
+  · rw [e2] at e'
+    exact Or.inr (fun f hf => by rw [e']; exact h.read_disj f' hf' f hf)
+  · rw [e2, e1] at e'
+    exact Or.inl ⟨f', hf', e'⟩
+  · rw [e2] at e'
+    exact Or.inr (fun f hf => by rw [e']; exact (h3 f (List.mem_append.2 (Or.inr hf))).2)
+
+/-- the run of `renameMapKeys` on a struct with an embedded struct whose fields were flattened -/
+theorem EmbeddedOK.run (h : EmbeddedOK pre post es gE cE d) (jE : Bytes) :
+    renameMapKeys (.struct (pre ++ (gE, cE, jE, true, RT.struct es) :: post)) d =
+      renameFields post (renameMapKeys (.struct es)
+        (renameFields pre (renameTop (renameMap (pre ++ (gE, cE, jE, true, RT.struct es) :: post)) d))) := by
+  rw [renameMapKeys_struct, renameFields_append, renameFields_cons, fieldStep_embedded _ _ _ _ (h.noMap_mid jE)]
+
+/-- item 4: every key stored under the `fromName` of a field of the EMBEDDED struct is found
+    afterwards under its `toName`, its value renamed by its own type: promoted fields are renamed
+    exactly like direct ones -/
+theorem renameMapKeys_embedded (h : EmbeddedOK pre post es gE cE d) (jE : Bytes) (f : RField)
+    (hf : f ∈ es) :
+    lookupKey (RField.read f)
+        (renameMapKeys (.struct (pre ++ (gE, cE, jE, true, RT.struct es) :: post)) d) =
+      (lookupKey (RField.stored f) d).map (renameValue f.2.2.2.2) := by
+  rw [h.run jE,
+    lookupKey_renameFields_other _ post _ h.plain_post
+      (fun f' hf' e => h.read_disj f' (List.mem_append.2 (Or.inr hf')) f hf e.symm),
+    lookupKey_renameMapKeys_field es h.plain_es ⟨h.storedE, h.readE⟩ _ (h.fits_mid jE) f hf,
+    lookupKey_renameFields_other _ pre _ h.plain_pre
+      (fun f' hf' e => h.cross f hf f' (List.mem_append.2 (Or.inl hf')) e),
+    h.top_promoted jE f hf]
+
+/-- … and so are the direct fields of the same struct, before or after the embedded one -/
+theorem renameMapKeys_embedded_direct (h : EmbeddedOK pre post es gE cE d) (jE : Bytes) (f : RField)
+    (hf : f ∈ pre ++ post) :
+    lookupKey (RField.read f)
+        (renameMapKeys (.struct (pre ++ (gE, cE, jE, true, RT.struct es) :: post)) d) =
+      (lookupKey (RField.stored f) d).map (renameValue f.2.2.2.2) := by
+  have hstray : ∀ dd : Doc, (dd.map (·.1)).Nodup →
+      lookupKey (RField.read f) (renameMapKeys (.struct es) dd) = lookupKey (RField.read f) dd :=
+    fun dd hn => lookupKey_renameMapKeys_stray es h.plain_es h.storedE dd hn _
+      (fun f' hf' => ⟨fun e => h.cross f' hf' f hf e.symm, h.read_disj f hf f' hf'⟩)
+  rw [h.run jE]
+  rcases List.mem_append.1 hf with h1 | h1
+  · rw [lookupKey_renameFields_other _ post _ h.plain_post (fun f' hf' => h.read_pre_post f h1 f' hf'),
+      hstray _ (h.fits_mid jE).1,
+      lookupKey_renameFields_field pre _ h.plain_pre
+        (by have := h.readD; rw [List.map_append] at this; exact (List.nodup_append.1 this).1) f h1,
+      h.top_direct jE f hf]
+  · rw [lookupKey_renameFields_field post _ h.plain_post
+        (by have := h.readD; rw [List.map_append] at this; exact (List.nodup_append.1 this).2.1) f h1,
+      hstray _ (h.fits_mid jE).1,
+      lookupKey_renameFields_other _ pre _ h.plain_pre
+        (fun f' hf' e => h.read_pre_post f' hf' f h1 e.symm),
+      h.top_direct jE f hf]
+
+/-- item 4 in the form of the task: the key `fromName g c` of a promoted field `(g, c, j, _, t)` with
+    value `v` is found under `toName g j` with the value `renameValue t v` -/
+theorem renameMapKeys_embedded_key (h : EmbeddedOK pre post es gE cE d) (jE : Bytes)
+    (g c j : Bytes) (e : Bool) (t : RT) (hf : (g, c, j, e, t) ∈ es) (v : Value)
+    (hv : lookupKey (fromName g c) d = some v) :
+    lookupKey (toName g j)
+        (renameMapKeys (.struct (pre ++ (gE, cE, jE, true, RT.struct es) :: post)) d) =
+      some (renameValue t v) := by
+  have := renameMapKeys_embedded h jE _ hf
+  simp only [RField.read, RField.stored, hv, Option.map_some] at this
+  exact this
+
+end Embedded
+
 /-! ## 5. The reproducer of F40 -/
 
 section Reproducer
@@ -174,6 +708,52 @@ example :
        (sList, .arr [.obj [(sN, n 3)], .obj [(sN, n 4)]]), (sM, .obj [(s_k, .obj [(sN, n 5)])]),
        (sName, .str s_n)] := by rfl
 
+private def reproDoc : Doc :=
+  [(sCreated, created), (sM, .obj [(s_k, .obj [(s_num, n 5)])]), (s_ident, .str s_b1),
+   (s_inner, .obj [(s_num, n 1)]), (s_list, .arr [.obj [(s_num, n 3)], .obj [(s_num, n 4)]]),
+   (s_name, .str s_n)]
+private def fName : RField := (sName, s_name, [], false, .leaf)
+private def fIn : RField := (sIn, s_inner, [], false, tInner)
+private def fList : RField := (sList, s_list, [], false, .list tInner)
+private def fM : RField := (sM, [], [], false, .map tInner)
+private def fID : RField := (sID, s_ident, [], false, .leaf)
+private def fCreated : RField := (sCreated, [], [], false, .leaf)
+
+/-- the hypotheses of item 4 hold of the reproducer (they are satisfiable) -/
+private theorem repro_ok :
+    EmbeddedOK [] [fName, fIn, fList, fM] [fID, fCreated] sBase [] reproDoc where
+  plain_pre := fun f hf => by cases hf
+  plain_post := fun f hf => by
+    simp only [List.mem_cons, List.not_mem_nil, or_false] at hf
+    rcases hf with rfl | rfl | rfl | rfl <;> rfl
+  plain_es := fun f hf => by
+    simp only [List.mem_cons, List.not_mem_nil, or_false] at hf
+    rcases hf with rfl | rfl <;> rfl
+  stored := by decide
+  read := by decide
+  cross := fun f hf f' hf' => by
+    simp only [List.nil_append, List.mem_cons, List.not_mem_nil, or_false] at hf hf'
+    rcases hf with rfl | rfl <;> rcases hf' with rfl | rfl | rfl | rfl <;> decide
+  fits := by
+    refine ⟨by decide, ?_⟩
+    intro kv hkv
+    simp only [reproDoc, List.mem_cons, List.not_mem_nil, or_false] at hkv
+    rcases hkv with rfl | rfl | rfl | rfl | rfl | rfl
+    · exact Or.inl ⟨fCreated, by simp only [List.nil_append, List.cons_append, List.mem_cons, true_or, or_true], rfl⟩
+    · exact Or.inl ⟨fM, by simp only [List.nil_append, List.cons_append, List.mem_cons, true_or, or_true], rfl⟩
+    · exact Or.inl ⟨fID, by simp only [List.nil_append, List.cons_append, List.mem_cons, true_or, or_true], rfl⟩
+    · exact Or.inl ⟨fIn, by simp only [List.nil_append, List.cons_append, List.mem_cons, true_or, or_true], rfl⟩
+    · exact Or.inl ⟨fList, by simp only [List.nil_append, List.cons_append, List.mem_cons, true_or, or_true], rfl⟩
+    · exact Or.inl ⟨fName, by simp only [List.nil_append, List.cons_append, List.mem_cons, true_or], rfl⟩
+  goName_not_key := by decide
+  stored_not_key := by decide
+  goName_not_read := by decide
+  stored_not_stored := by decide
+
+/-- item 4 on the reproducer: the promoted field `ident` arrives under `ID` -/
+example : lookupKey sID (renameMapKeys tOuter reproDoc) = some (.str s_b1) :=
+  renameMapKeys_embedded_key repro_ok [] sID s_ident [] false .leaf List.mem_cons_self (.str s_b1) rfl
+
 /-- a struct-typed EMBEDDED field that was NOT flattened (a map sits under its Go name: e.g. a document
     written by hand): treated like a direct field -/
 example :
@@ -183,12 +763,12 @@ example :
 
 /-- the renaming of promoted fields is a SECOND pass over the same map, not simultaneous with the
     renaming of the direct fields: a direct field read under a name that is the stored name of a
-    promoted field is moved again (hypothesis `hcross` of `renameMapKeys_embedded`).  Direct field
-    `Name` stored under "name" and read under "ident"; promoted field `ID` stored under "ident": the
-    value of `Name` ends under "ID" and the value of `ID` is lost. -/
+    promoted field is moved again (hypothesis `hcross` of `renameMapKeys_embedded` is needed).  Direct
+    field `Name` stored under "name" and read under "ident" (`clover:"name" json:"ident"`); promoted
+    field `ID` stored under "ident" and absent from the document: the value of `Name` ends under "ID". -/
 example :
     renameMapKeys (.struct [(sBase, [], [], true, tBase), (sName, s_name, s_ident, false, .leaf)])
-      [(s_ident, .str s_b1), (s_name, .str s_n)]
+      [(s_name, .str s_n)]
     = [(sID, .str s_n)] := by rfl
 end Reproducer
 
